@@ -293,9 +293,13 @@ pub fn main_run(args: &[String]) -> i32 {
         let has_summary = lines.iter().any(|l| l["type"] == "summary");
         if !status.success() || !has_summary {
             let he = lines.iter().find(|l| l["type"] == "harness_error");
-            // crash world: a worker that dies is the observation. Re-run the scenario it was
-            // executing alone, in a child process; if the child dies as well that is the violation.
-            if prop == "C11" && he.is_none() {
+            // a worker that is killed by a signal (abort after a double panic, stack overflow) while it
+            // runs real unimock code is an observation, not a harness problem - in the crash world by
+            // design, elsewhere because no statement lets the mock take the process down. Re-run the
+            // scenario it was executing alone, in a child process; if the child dies as well that is
+            // the violation (and the replay).
+            use std::os::unix::process::ExitStatusExt;
+            if (prop == "C11" || status.signal().is_some()) && he.is_none() {
                 if let Ok(b) = serde_json::from_str::<serde_json::Value>(last_begin) {
                     let (batch, run) = (b["batch"].as_str().unwrap_or("").to_string(), b["run"].as_u64().unwrap_or(0));
                     let mut scn = props::generate(&prop, seed, &batch, run);
